@@ -1,6 +1,6 @@
 #!/bin/sh
 # run every registered quick check sequentially (refreshes evidence/*.json); prints one summary line per property
-cd /verif
+cd "$(dirname "$0")/.."
 for p in C01 C02 C03 C05 C06 C07 C08 C09 C10 C11 C12 C13 C14 C15 C16 C17; do
   start=$(date +%s)
   ./check $p --tier quick > /tmp/runall_$p.log 2>&1
